@@ -4,6 +4,7 @@ package main
 
 import (
 	"go/ast"
+	"go/token"
 	"go/constant"
 	"go/types"
 	"sort"
@@ -14,12 +15,14 @@ func init() { register("C14", "other", checkC14) }
 
 func checkC14(w *World, r *Result) {
 	r.Explanation = "Decides structural necessary conditions on generator/typescript/axios_api.go: AGR-C14a every contract slot whose type the method signatures print (body, return, form JSON, query parameters) is collected by renderTypes, so its declaration is in the file; REC-SHAPE/AGR-MD the TypeScript type printer never follows a child the declaration generator does not descend into, and each helper declares what it mentions; SHP-C14m one generateMethod per endpoint, in order, named by Contract.Name; SHP-C14c the call-shape chain tests form data, then JSON body, then verb-expects-body and ends in an unconditional else, with null as body exactly for body-less POST/PUT; AGR-C14f the form fields appended to FormData, the form arguments of the signature and Form.IsZero read the same three slots (File, ValueNames, JSON.Name); AGR-C13b record coverage; TPL-4 balanced brackets of the class and method templates. Does not decide: what request a generated method performs at run time, TypeScript validity (no parser in the sandbox)."
-	r.Rules = []string{"AGR-C14a", "REC-SHAPE", "AGR-MD", "SHP-C14m", "SHP-C14c", "AGR-C14f", "AGR-C13b", "TPL-4"}
+	r.Rules = []string{"AGR-C14a", "REC-SHAPE", "AGR-MD", "SHP-C14m", "SHP-C14c", "AGR-C14f", "AGR-C14z", "AGR-C14k", "AGR-C13b", "TPL-4"}
 	checkRenderTypes(w, r)
 	recursionShape(w, r, "REC-SHAPE", "generator/typescript.typeName", "generator/typescript.generate")
 	mentionDeclare(w, r, "AGR-MD", "generator/typescript", []string{"generator/typescript.typeName"}, "generator/typescript.generate", axiosSkip)
 	checkAxiosShape(w, r)
 	checkFormAgreement(w, r)
+	checkIsZeroEmptiness(w, r)
+	checkQueryConverters(w, r)
 	sub := &Result{}
 	checkRecordCoverage(w, sub)
 	for _, o := range sub.Obs {
@@ -418,4 +421,175 @@ func checkFormAgreement(w *World, r *Result) {
 	r.cond(setEq(a, want), "AGR-C14f", iz.Name, "IsZero reads {"+strings.Join(a, ",")+"}", fnPos(w, iz), "a form is empty exactly when it has no file, no value and no JSON field", "Form.IsZero does not consult all of File, ValueNames and JSON: a form that only has the missing part is treated as 'no form' and its fields are never sent")
 	r.cond(setEq(b, want), "AGR-C14f", ti.Name, "signature arguments from {"+strings.Join(b, ",")+"}", fnPos(w, ti), "file, formParams and formValue arguments", "the method signature does not cover all three form parts")
 	r.cond(setEq(c, want), "AGR-C14f", gc.Name, "formData.append from {"+strings.Join(c, ",")+"}", fnPos(w, gc), "file, values and JSON field are appended", "FormData is not filled from all three form parts")
+}
+
+// checkIsZeroEmptiness (AGR-C14z): Form.IsZero is a conjunction of emptiness tests. A test on a slice- or
+// map-typed field is evaluated over the three states {nil, empty non-nil, non-empty}: it must hold for the
+// first two and fail for the third (len(x) == 0 does; x == nil does not: an endpoint built with an empty
+// non-nil list is then sent with a FormData and without its body/params).
+func checkIsZeroEmptiness(w *World, r *Result) {
+	iz := w.MustFunc("analysis/httpapi.(Form).IsZero")
+	info := iz.Pkg.TypesInfo
+	var ret *ast.ReturnStmt
+	n := 0
+	ast.Inspect(iz.Decl.Body, func(x ast.Node) bool {
+		if rs, ok := x.(*ast.ReturnStmt); ok {
+			ret = rs
+			n++
+		}
+		return true
+	})
+	if n != 1 || len(ret.Results) != 1 {
+		Undecided("AGR-C14z: Form.IsZero is no longer a single returned expression")
+	}
+	checked := 0
+	for _, c := range splitCond(ret.Results[0], true) {
+		// find a slice/map typed operand
+		var coll ast.Expr
+		ast.Inspect(c.expr, func(x ast.Node) bool {
+			if e, ok := x.(ast.Expr); ok && coll == nil {
+				if t := info.TypeOf(e); t != nil {
+					switch t.Underlying().(type) {
+					case *types.Slice, *types.Map:
+						if _, isSel := e.(*ast.SelectorExpr); isSel {
+							coll = e
+						}
+					}
+				}
+			}
+			return true
+		})
+		if coll == nil {
+			continue
+		}
+		checked++
+		// evaluate c over the three states
+		eval := func(isNil bool, length int) (bool, bool) {
+			be, ok := ast.Unparen(c.expr).(*ast.BinaryExpr)
+			if !ok {
+				return false, false
+			}
+			var v bool
+			if call, ok := ast.Unparen(be.X).(*ast.CallExpr); ok && isBuiltinCall(info, call, "len") && len(call.Args) == 1 && es(call.Args[0]) == es(coll) {
+				k, ok := constInt(info, be.Y)
+				if !ok {
+					return false, false
+				}
+				switch be.Op {
+				case token.EQL:
+					v = length == k
+				case token.NEQ:
+					v = length != k
+				case token.LSS:
+					v = length < k
+				case token.LEQ:
+					v = length <= k
+				case token.GTR:
+					v = length > k
+				case token.GEQ:
+					v = length >= k
+				default:
+					return false, false
+				}
+			} else if es(be.X) == es(coll) && es(be.Y) == "nil" {
+				switch be.Op {
+				case token.EQL:
+					v = isNil
+				case token.NEQ:
+					v = !isNil
+				default:
+					return false, false
+				}
+			} else {
+				return false, false
+			}
+			if !c.truth {
+				v = !v
+			}
+			return v, true
+		}
+		a, ok1 := eval(true, 0)
+		b, ok2 := eval(false, 0)
+		d, ok3 := eval(false, 1)
+		e2, ok4 := eval(false, 2)
+		if !(ok1 && ok2 && ok3 && ok4) {
+			Undecided("AGR-C14z: unrecognised emptiness test %s in Form.IsZero", es(c.expr))
+		}
+		r.cond(a && b && !d && !e2, "AGR-C14z", iz.Name, "emptiness of "+es(coll)+": "+es(c.expr), w.Pos(c.expr.Pos()),
+			"true for nil and for an empty non-nil value, false otherwise",
+			"not an emptiness test (nil: "+boolStr(a)+", empty non-nil: "+boolStr(b)+", one element: "+boolStr(d)+"): an endpoint whose list is empty but not nil is treated as having a form: POST/PUT send an empty FormData instead of null and GET/DELETE pass it in place of the request config")
+	}
+	if checked == 0 {
+		Undecided("AGR-C14z: Form.IsZero tests no collection-typed field")
+	}
+}
+
+// checkQueryConverters (AGR-C14k): asObjectKey chooses the string conversion of a query parameter from the
+// basic kind alone -- a named type converts like its underlying type. Obligations: the cases that unwrap the
+// parameter's type produce no output themselves (every formatted return is inside the switch over the kind), and
+// the kind switch gives bool its own converter.
+func checkQueryConverters(w *World, r *Result) {
+	fi := w.MustFunc("generator/typescript.asObjectKey")
+	info := fi.Pkg.TypesInfo
+	var kindSwitch *ast.SwitchStmt
+	ast.Inspect(fi.Decl.Body, func(x ast.Node) bool {
+		if s, ok := x.(*ast.SwitchStmt); ok && s.Tag != nil {
+			if call, ok := ast.Unparen(s.Tag).(*ast.CallExpr); ok {
+				if fn := calleeOf(info, call); fn != nil && fn.Name() == "Kind" {
+					kindSwitch = s
+				}
+			}
+		}
+		return true
+	})
+	if kindSwitch == nil {
+		Undecided("AGR-C14k: asObjectKey has no switch over the basic kind")
+	}
+	nret := 0
+	ast.Inspect(fi.Decl.Body, func(x ast.Node) bool {
+		ret, ok := x.(*ast.ReturnStmt)
+		if !ok {
+			return true
+		}
+		nret++
+		inside := kindSwitch.Pos() <= ret.Pos() && ret.End() <= kindSwitch.End()
+		r.cond(inside, "AGR-C14k", fi.Name, "return "+es(ret.Results[0]), w.Pos(ret.Pos()),
+			"the conversion is chosen inside the switch over the underlying basic kind",
+			"a conversion is returned before the switch over the basic kind: the parameter is converted by the shape of its type (e.g. every named type through String()) instead of by its kind, so a named bool is sent as \"false\" -- a non-empty string the server reads as true")
+		return true
+	})
+	// distinct formats per kind group
+	formats := map[string]string{}
+	for _, c := range kindSwitch.Body.List {
+		cl := c.(*ast.CaseClause)
+		for _, e := range cl.List {
+			ast.Inspect(&ast.BlockStmt{List: cl.Body}, func(x ast.Node) bool {
+				if call, ok := x.(*ast.CallExpr); ok && fullName(calleeOf(info, call)) == "fmt.Sprintf" {
+					f, _ := verbArgs(info, call)
+					formats[es(e)] = f
+				}
+				return true
+			})
+		}
+	}
+	var boolF, intF, strF string
+	for k, f := range formats {
+		switch {
+		case strings.HasSuffix(k, "BKBool"):
+			boolF = f
+		case strings.HasSuffix(k, "BKInt"):
+			intF = f
+		case strings.HasSuffix(k, "BKString"):
+			strF = f
+		}
+	}
+	if boolF == "" || intF == "" || strF == "" {
+		Undecided("AGR-C14k: the kind switch of asObjectKey does not format bool, int and string parameters")
+	}
+	r.cond(boolF != intF && boolF != strF, "AGR-C14k", fi.Name, "bool parameters have their own converter", w.Pos(kindSwitch.Pos()),
+		"the bool case formats differently from the numeric and the string case (false must become the empty string)",
+		"bool parameters are converted like another kind: `false` reaches the server as a non-empty string")
+	if nret == 0 {
+		Undecided("AGR-C14k: asObjectKey returns nothing")
+	}
 }
